@@ -247,6 +247,8 @@ def run(ctx):
     ft_stats = X.run_fit_transform(ctx, report)
     # extension (round 4): the same data as int64 / int32 / list / Fortran order / float32
     pres_stats = X.run_presentations(ctx, report, ctx.c14_int_groups)
+    # extension (round 6): randomized solver with min(n, m) > k + 10
+    big_stats = X.run_big_randomized(ctx, report)
     # verdicts
     dev_max = [0.0] * len(P.OUTPUT_NAMES)
     res_max = [0.0] * len(P.RESIDUAL_NAMES)
@@ -314,7 +316,7 @@ def run(ctx):
                    "numpy eigh/svd/lstsq answers are accepted as oracle hints only after their hypotheses' residuals are checked on the float side (eps %g)" % P.EPS_HYP,
                    "layer-D model coq/Model/PCovRFit.v of fit's control flow and shapes: tied by the exact family fitctl (error kind recognised by message; sklearn's coef_ shape is an oracle contract checked per run)"],
                evaluations=len(cases) + fitctl_stats["cases"], distinct_nontrivial=nontrivial,
-               fitctl=fitctl_stats, refit=refit_stats, fit_transform=ft_stats, presentations=pres_stats,
+               fitctl=fitctl_stats, refit=refit_stats, fit_transform=ft_stats, presentations=pres_stats, big_randomized=big_stats,
                rule="centred/offset X of families %s, every k, both spaces; non-trivial = distinct fit compared inside Coq with mixing > 0 and k < numeric rank of the modified matrix (solvers full/arpack/randomized/auto); the fitctl configurations are counted in evaluations only" % ",".join(P.FAMILIES),
                traces_validated_against_impl=agree + fitctl_agree,
                samples=[dict(case=case_replay(cases[i][0], cases[i][1]), report=reports[i]) for i in sample_ids],
@@ -328,6 +330,10 @@ def run(ctx):
 
 def replay(ctx, obj):
     c = obj["case"]
+    if "bigrand" in c:
+        msg = X.replay_bigrand(c["bigrand"])
+        print("replay:", msg or "property holds on this input now")
+        return 1 if msg else 0
     if "presentation" in c:
         msg = X.replay_presentation(c["presentation"])
         print("replay:", msg or "property holds on this input now")
